@@ -215,10 +215,13 @@ def main():
     # 4. known findings / violations
     known = load_known()
     violations = []
+    known_hit = []
     for f in rel:
-        k = next((k for k in known if k['property'] == prop and k['obligation'] == f['obligation'] and (k['site'] is None or k['site'] == f['site'])), None)
+        k = next((k for k in known if k['property'] == prop and k['obligation'] == f['obligation'] and (k['site'] is None or k['site'] in (f['site'], f['declared_in']))), None)
         if k:
-            print('KNOWN-FINDING: property=%s %s [%s]' % (prop, k['what'], k['obligation']))
+            if k['obligation'] not in [x['obligation'] for x in known_hit]:
+                print('KNOWN-FINDING: property=%s %s [%s]' % (prop, k['what'], k['obligation']))
+                known_hit.append(k)
         else:
             violations.append(f)
 
@@ -245,8 +248,11 @@ def main():
     my_fns = [f for f in report['functions'] if prop in f['props']]
     builtin = ['nopanic+termination.' + f['path'] for f in my_fns if f['kind'] in ('exec', 'lemma')]
     failed_names = set()
-    for f in rel:
+    for f in violations:
         failed_names.add(f['obligation'] or ('nopanic+termination.' + (f['site'] or '?')))
+    # obligations that are listed known findings (they fail by design) are reported separately, not counted
+    kf_names = set(k['obligation'] for k in known_hit)
+    my_obls = [o for o in my_obls if o['name'] not in kf_names]
     n_obl = len(my_obls) + len(builtin)
     n_dis = n_obl - len([n for n in failed_names])
     js = res['json'] or {}
@@ -282,6 +288,7 @@ def main():
             'named_obligations': [o['name'] for o in my_obls],
             'builtin_obligations': builtin,
             'failed_obligations': sorted(failed_names),
+            'known_findings_not_counted': [{'obligation': k['obligation'], 'site': k['site'], 'what': k['what']} for k in known_hit],
             'solver_ms_total': times.get('smt', {}).get('total'),
             'verus_ms_total': times.get('total'),
             'slowest_functions': fn_times[:8],
